@@ -42,7 +42,8 @@ REQUIRED = ["cases", "ctl_cases", "sw_cases", "hostile_units", "closed_by_input"
             "frames_walked", "budget_armed", "hostile_during_handshake",
             "hostile_and_valid_traffic_in_one_segment", "declared_length_below_8_judged",
             "hostile_completed_while_siblings_are_ready",
-            "frames_shorter_than_their_type", "sibling_statistics_events_checked"]
+            "frames_shorter_than_their_type", "sibling_statistics_events_checked",
+            "handshake_deliveries_observed"]
 TIMEOUT = {"quick": 1200, "thorough": 9000}
 
 _st = {}
@@ -107,6 +108,22 @@ class CtlRig (object):
     self.w.core.openflow.addListenerByName("PacketIn", self._pin)
     self.stats = []
     self.w.core.openflow.addListenerByName("PortStatsReceived", self._stats)
+    # every Connection the task creates, by its socket (a connection that is
+    # still in its handshake is not in the nexus yet)
+    self.cons = {}
+    if not getattr(of_01.Connection, "_pvm_c10", False):
+      real = of_01.Connection.__init__
+      rig = self
+      def init (con, sock, *a, **k):
+        real(con, sock, *a, **k)
+        reg = getattr(of_01.Connection, "_pvm_c10_reg", None)
+        if reg is not None:
+          reg[id(sock)] = con
+          if len(reg) > 200:
+            for key in list(reg)[:100]: del reg[key]
+      of_01.Connection.__init__ = init
+      of_01.Connection._pvm_c10 = True
+    of_01.Connection._pvm_c10_reg = self.cons
 
   def _stats (self, e):
     self.stats.append((id(e.connection.sock), [x.rx_packets for x in e.stats]))
@@ -194,11 +211,38 @@ def ctl_case_handshake (rig, case, rep, fire):
   rep.count("hostile_during_handshake")
   sibling_round()
   if not run_budget(400): return
+  # what reaches the handshake's handlers
+  hs_delivered = []
+  xcon = rig.cons.get(id(X["c"]))
+  if xcon is not None:
+    def wrap (h):
+      def f (con, msg):
+        try: hs_delivered.append((msg.header_type, msg.xid))
+        except Exception: hs_delivered.append(("?", None))
+        return h(con, msg)
+      return f
+    try:
+      hv = xcon.handlers
+      xcon.handlers = [wrap(h) for h in hv]
+      rep.count("handshake_deliveries_observed")
+    except Exception:
+      xcon = None
   X["s"].send(case["hostile"])
   if not run_budget(len(case["hostile"]) + 200): return
   sibling_round()
   if not run_budget(400): return
   closed = X["c"].closed or X["c"].shut_rd
+  frames, end = walk(case["hostile"])
+  # a frame with another protocol version is not handed to a handler, during
+  # the handshake no more than after it (a HELLO of another version is let
+  # through on purpose)
+  for (o, t, x, l) in frames:
+    v = case["hostile"][o]
+    if v != 1 and t != 0 and (t, x) in hs_delivered and \
+       not any(f[1] == t and f[2] == x and case["hostile"][f[0]] == 1 for f in frames):
+      fire("message with unsupported version delivered (controller, during the handshake)",
+           "version %d type %d" % (v, t))
+      return
   if not closed:
     # finish the handshake; traffic behind it must then come through
     try:
@@ -207,6 +251,17 @@ def ctl_case_handshake (rig, case, rep, fire):
       fire("exception while completing a handshake after hostile input", repr(e))
       return
     closed = X["c"].closed or X["c"].shut_rd
+    xc = rig.cons.get(id(X["c"]))
+    went_up = xc is not None and getattr(xc, "connect_time", None) is not None
+    if not closed and X["con"] is None and not went_up and end == len(case["hostile"]) \
+       and frames and all(f[3] >= 8 for f in frames):
+      # the hostile bytes were whole frames (nothing of them is still being
+      # waited for), the connection is open, and the handshake that follows
+      # them gets nowhere: neither of the two outcomes the statement allows
+      fire("connection neither closed nor able to go on after hostile input "
+           "(controller, during the handshake)",
+           "phase %s; frames %r" % (phase, [(f[1], f[3]) for f in frames][:6]))
+      return
     if not closed and X["con"] is not None:
       post = [0x56000001, 0x56000002]
       for x in post: X["s"].send(marker_pi(x))
